@@ -5,13 +5,14 @@ from ..common import dec_val
 
 FACTS = True
 MODULE = "Genql.Properties.C02"
-LEAN_TARGETS = [MODULE, "Genql.Properties.C02Selectors", "Genql.Properties.C02Exprs", "Genql.Obligations.C01", "Genql.Obligations.C12"]
+LEAN_TARGETS = [MODULE, "Genql.Properties.C02Selectors", "Genql.Properties.C02Exprs", "Genql.Properties.Pipeline", "Genql.Obligations.C01", "Genql.Obligations.C12"]
 THEOREMS = ["Genql.C02." + t for t in [
     "select_length", "select_row_local", "select_rowwise", "select_keys", "evalSel_frame", "select_values",
     "missing_is_null", "binop_null", "select_no_marker", "select_plain",
     "selc_eval", "selc_error", "selc_keys_eq_col", "tableSel_keys_eq_table",
     "evalWhens_first_true", "case_spec", "case_no_match_null", "bin_num", "bin_field_total", "bin_null_right", "bin_type_error",
-    "tuple_values", "evalArgs_length"]] + ["Genql.Obligations.C01.binary_cases", "Genql.Obligations.C12.select_item_lines"]
+    "tuple_values", "evalArgs_length"]] + ["Genql.Obligations.C01.binary_cases", "Genql.Obligations.C12.select_item_lines",
+                                        "Genql.Pipeline.having_without_group_by_is_inert"]
 TRUSTED = ["IEEE-754 arithmetic (Lean Float in the driver, opaque to the kernel)", "sqlparser (query text -> AST)"]
 RULE = ("random tables with nested objects, NULLs and missing keys x select lists of 1-6 items (columns, nested paths, "
         "aliases, duplicates, *, expression trees over all 11 binary and 3 unary operators, CASE with/without ELSE whose conditions compare "
